@@ -272,21 +272,19 @@ func (ctx *RenderContext) GetVariable(name string) (interface{}, error) {
 		}
 	}
 
-	// Check local context first
-	if value, ok := ctx.context[name]; ok {
-		return value, nil
-	}
-
-	// Check globals
-	if ctx.env != nil {
-		if value, ok := ctx.env.globals[name]; ok {
+	// The context chain first, innermost scope outwards: a variable of this
+	// template, or of the template that included or called it, shadows a global
+	for c := ctx; c != nil; c = c.parent {
+		if value, ok := c.context[name]; ok {
 			return value, nil
 		}
 	}
 
-	// Check parent context
-	if ctx.parent != nil {
-		return ctx.parent.GetVariable(name)
+	// Check globals (every context of the chain shares the environment)
+	if ctx.env != nil {
+		if value, ok := ctx.env.globals[name]; ok {
+			return value, nil
+		}
 	}
 
 	// Return nil with no error for undefined variables
